@@ -214,8 +214,14 @@ func (r *Run) removeIsIdempotent() bool {
 			continue
 		}
 		for _, ev := range path.Events {
-			if ev.Kind == EvDelete || (ev.Kind == EvCall && ev.Depth == 0 && r.lockOpOf(ev) == nil && !strings.HasSuffix(objName(ev.Callee), "Once.Do") && !strings.HasSuffix(objName(ev.Callee), "GlobalSessionID")) {
+			if ev.Kind == EvDelete {
 				return false
+			}
+			if ev.Kind == EvCall {
+				switch objName(ev.Callee) {
+				case "Session.Close", "SequentialIDGenerator.Reuse", "models.instrumentDecreaseSessionGauge":
+					return false // the session is closed / its id released / the gauge lowered although it is not the registered one
+				}
 			}
 		}
 	}
